@@ -750,7 +750,8 @@ def rule_A_READFAIL(ctx, repo, cache):
                 if o.kind != RAISE or o.exc == 'KeyError':
                     continue
                 failed = [e for e in o.st.events if e.kind.endswith('!')]
-                if failed and failed[-1].kind == 'READ!' and not any(e.kind == 'CAUGHT' for e in o.st.events[o.st.events.index(failed[-1]):]):
+                # ... whether it escapes as it is or is caught and re-raised as something else (`except Exception as err: raise OSError(...) from err`)
+                if failed and failed[-1].kind == 'READ!':
                     bad = (o, failed[-1])
                     break
             n += 1
@@ -844,6 +845,15 @@ def rule_A_SCHEMA(ctx, repo):
                      'the table is created with the typed column `%s`: the column\'s affinity makes sqlite convert keys (or values) of another type on the way in and '
                      'in comparisons - an int key and the str of its digits become the same row, so a cached call with one of them is answered with the other\'s '
                      'result; klepto\'s own columns are typeless for that reason' % typed[0], '%s:%d' % (m.rel, node.lineno))
+    # the sqlite archive keeps every value ever written for a key and reads "the last row" of an unordered SELECT: that is the insertion order only as
+    # long as the table is scanned by rowid - an index that covers the query makes sqlite return the rows in index (value) order
+    for node in ast.walk(m.tree):
+        if isinstance(node, ast.Constant) and isinstance(node.value, str) and re.search(r'create\s+(unique\s+)?index\b', node.value, re.I):
+            ctx.ob('A-SCHEMA', '%s:%d no index on the archive table' % (m.rel, node.lineno), False)
+            ctx.fail('A-SCHEMA', '%s:%d' % (m.rel, node.lineno), 'index on the archive table',
+                     'an index is created on the archive table (`%s`): lookups by key take "the last row" of an unordered SELECT as the current value, which is the '
+                     'most recently written one only while rows come back in rowid order; through a covering index they come back ordered by value, so a key that '
+                     'was overwritten reads back an older (larger) value' % ' '.join(node.value.split())[:60], '%s:%d' % (m.rel, node.lineno))
     if n < 1:
         raise AnalysisError('instance count below confirmed minimum: no `create table` statement found in klepto/_archives.py')
 
@@ -933,6 +943,35 @@ def rule_A_COPYTREE(ctx, repo):
                          'holds the other archive\'s entries (and, inside entries of the same name, its stale key files), so it is not equal to the original',
                          '%s:%d' % (m.rel, node.lineno))
     ctx.ob('A-COPY', 'copytree calls examined', True, n=max(1, n))
+
+
+def rule_A_COPY_NODESTROY(ctx, repo, cache):
+    """A-COPY (copying destroys nothing): copy(name) reads the source and creates / overwrites the target; it never *removes* a tree.  A copy that clears
+    the way first (`rmtree(target)`) erases the archive itself when the target is the source under another spelling (d.copy(d.name), a relative path, a
+    symlink) - and then has nothing left to copy."""
+    n = 0
+    for ci in archive_classes(repo, PERSISTENT):
+        if 'copy' not in ci.methods:
+            continue
+        fi, outs, eng = cache.outs(ci, 'copy')
+        bad = None
+        for o in outs:
+            for e, c in effects(o, own=lambda t: True):
+                if c in ('remove', 'clearall'):
+                    bad = (o, e)
+                    break
+            if bad:
+                break
+        n += 1
+        ctx.ob('A-COPY', '%s.copy removes nothing' % ci.label, bad is None)
+        if bad is not None:
+            o, e = bad
+            ctx.fail('A-COPY', mq(ci, 'copy'), 'copy() removes a tree',
+                     '%s.copy() performs %s: when the given name resolves to the archive\'s own location (its path, an unnormalised spelling of it, the name it already '
+                     'has) the archive is erased before it is copied, and every entry is lost; today the call fails (or copies onto itself) and leaves the archive intact'
+                     % (ci.label, render(e.args[0])[:60] if e.args else e.kind), wh(ci, e.line), render_path(o))
+    if n < 2:
+        raise AnalysisError('A-COPY: fewer than two persistent archive classes with a copy() method')
 
 
 def rule_A_NAMEDHANDLE(ctx, repo):
@@ -1754,6 +1793,23 @@ def rule_A_FACTORY_OPEN(ctx, repo, cache, open_only=False, do_open=True, factori
             if do_open and nm not in ('dict_archive', 'null_archive'):
                 extra = [e for e in o.st.events if e.kind == 'AMETHOD' and e.args[1][1] in ('dump', 'sync', 'load', 'clear', 'drop', 'pop', 'popitem', '__setitem__',
                                                                                            '__delitem__', 'setdefault', 'popkeys', 'open', 'archived')]
+                if not extra:
+                    # any other method of the private class called on open is judged by what it does to the store (a `_sweep()` that removes staging
+                    # directories removes the staging copy of a write another process has in flight)
+                    for e_ in [e for e in o.st.events if e.kind == 'AMETHOD']:
+                        for lab_ in [l for l in ARCHIVE_CLASSES if l.split('[')[0] == nm and l in PERSISTENT]:
+                            pci_ = am.classes.get(lab_)
+                            if pci_ is None or e_.args[1][1] not in pci_.methods:
+                                continue
+                            try:
+                                _fi, mouts, _e2 = cache.outs(pci_, e_.args[1][1])
+                            except AnalysisError:
+                                continue
+                            if any(c in ('write', 'remove', 'clearall', 'rename') for mo in mouts for _ev, c in effects(mo)):
+                                extra.append(e_)
+                                break
+                        if extra:
+                            break
                 ctx.ob('A-OPEN', '%s factory cached=%s: no store operation besides the seed' % (nm, cached), not extra)
                 if extra:
                     e = extra[0]
@@ -1866,10 +1922,20 @@ def rule_A_ABS(ctx, repo, cache):
                 continue
             evs = o.st.events
             sets = [(i, e) for i, e in enumerate(evs) if e.kind == 'SELFSET' and e.args[0] == C('__state__') and len(e.args) > 2 and e.args[1] == C('id')]
-            if not sets:
+            val = None
+            if sets:
+                i, e = sets[-1]
+                val = e.args[2]
+            else:
+                # the location is recorded once, in the literal that initialises __state__
+                for i, e in reversed(list(enumerate(evs))):
+                    if e.kind == 'SELFSET' and e.args and e.args[0] == C('__state__') and len(e.args) == 2 and e.args[1][0] == 'dict':
+                        for k_, v_ in e.args[1][1]:
+                            if k_ == C('id'):
+                                val = v_
+                        break
+            if val is None:
                 continue
-            i, e = sets[-1]
-            val = e.args[2]
             is_abs = contains_term(val, lambda t: t[0] == 'call' and t[1][0] == 'lib' and t[1][1] in ('os.path.abspath', 'os.path.realpath')) \
                 or any(x.kind == 'MKDIR' and x.line == e.line for x in evs[:i])
             (good if is_abs else bad).append((o, e))
@@ -2116,3 +2182,247 @@ def walk_own(fn):
         if isinstance(n, (ast.FunctionDef, ast.AsyncFunctionDef, ast.Lambda, ast.ClassDef)):
             continue
         todo.extend(ast.iter_child_nodes(n))
+
+
+def rule_A_CODEC_CONFIG(ctx, repo):
+    """A-CODEC (whether a value is encoded is decided by the archive's settings, never by looking at the value).  A writer that pickles only "what the backend
+    cannot store natively" and a reader that unpickles "what looks like a pickle" are not inverses: a user's own bytes that happen to be a pickle
+    (a cached function returning pickled data) come back decoded - the archive returns another object than the one stored.  In every method of an archive
+    class, a dump(s) / load(s) / encode / decode applied to a parameter is not guarded by a test of that parameter, and not wrapped in a try whose handler
+    falls back to the raw parameter."""
+    m = repo.mod('_archives')
+    n = 0
+
+    class _ModFuncs(object):       # module-level helpers of _archives.py are judged like methods (no self)
+        name = ''
+        label = m.rel
+        qual = m.rel
+        module = m
+    units = []
+    for lab, ci in sorted(m.classes.items()):
+        if 'archive' in ci.name:
+            for mname, fi in sorted(ci.own_methods.items() if hasattr(ci, 'own_methods') else ci.methods.items()):
+                units.append((lab, ci, mname, fi, 1))
+    for fname, fi in sorted(m.functions.items()):
+        units.append((m.rel, _ModFuncs, fname, fi, 0))
+    for lab, ci, mname, fi, skip in units:
+        if True:
+            fn = fi.node
+            params = set(a.arg for a in fn.args.posonlyargs + fn.args.args[skip:] + fn.args.kwonlyargs)
+            if not params:
+                continue
+            # for conv in (int, float): ... conv(x)
+            loopfuncs = {}
+            for x in ast.walk(fn):
+                if isinstance(x, ast.For) and isinstance(x.target, ast.Name) and isinstance(x.iter, (ast.Tuple, ast.List)) and all(isinstance(e, ast.Name) for e in x.iter.elts):
+                    loopfuncs[x.target.id] = [e.id for e in x.iter.elts]
+            parent = {}
+            for x in ast.walk(fn):
+                for c in ast.iter_child_nodes(x):
+                    parent[c] = x
+            for call in ast.walk(fn):
+                if not isinstance(call, ast.Call):
+                    continue
+                nm = call.func.attr if isinstance(call.func, ast.Attribute) else call.func.id if isinstance(call.func, ast.Name) else None
+                conv = False
+                if nm in loopfuncs and any(x in ('int', 'float', 'complex', 'eval', 'literal_eval') for x in loopfuncs[nm]):
+                    nm, conv = '/'.join(loopfuncs[nm]), True
+                elif nm in ('int', 'float', 'complex', 'literal_eval') and isinstance(call.func, (ast.Name, ast.Attribute)):
+                    conv = True
+                if not conv and nm not in ('loads', 'dumps', 'decode', 'encode', 'decompress', 'compress'):
+                    continue
+                data = set(x.id for a in call.args for x in ast.walk(a) if isinstance(x, ast.Name) and x.id in params)
+                if not data:
+                    continue
+                n += 1
+                guards, fallbacks = [], []
+                cur = call
+                while cur in parent and cur is not fn:
+                    p = parent[cur]
+                    if isinstance(p, (ast.If, ast.While)) and cur is not p.test:
+                        guards.append(p.test)
+                    elif isinstance(p, ast.IfExp) and cur is not p.test:
+                        guards.append(p.test)
+                    elif isinstance(p, ast.Try) and cur in p.body:
+                        fallbacks.extend(p.handlers)
+                    # earlier siblings that leave the block early
+                    for fld in ('body', 'orelse', 'finalbody'):
+                        blk = getattr(p, fld, None)
+                        if isinstance(blk, list) and cur in blk:
+                            for st_ in blk[:blk.index(cur)]:
+                                if isinstance(st_, ast.If) and any(isinstance(y, (ast.Return, ast.Raise, ast.Continue, ast.Break)) for y in ast.walk(st_)):
+                                    guards.append(st_.test)
+                    cur = p
+                # names assigned from a test of the data (ispickle = value.startswith(PROTO)) carry the test
+                derived = set(data)
+                for x in ast.walk(fn):
+                    if isinstance(x, ast.Assign) and any(isinstance(y, ast.Name) and y.id in data for y in ast.walk(x.value)) \
+                            and not any(isinstance(y, ast.Call) and y is call for y in ast.walk(x.value)):
+                        for t in x.targets:
+                            if isinstance(t, ast.Name) and t.id not in params:
+                                derived.add(t.id)
+                bad_guard = [g for g in guards if any(isinstance(y, ast.Name) and y.id in derived for y in ast.walk(g))]
+                bad_fb = [h for h in fallbacks if any(isinstance(y, ast.Name) and y.id in data for st_ in h.body for y in ast.walk(st_))]
+                if conv:
+                    # a type conversion is "sniffing" only in the try-it-and-fall-back form: try: return int(x) / except: pass ... return x
+                    bad_guard = []
+                    returns_raw = any(isinstance(r, ast.Return) and isinstance(r.value, ast.Name) and r.value.id in data for r in ast.walk(fn))
+                    bad_fb = [h for h in fallbacks if returns_raw or any(isinstance(y, ast.Name) and y.id in data for st_ in h.body for y in ast.walk(st_))]
+                    if not bad_fb:
+                        n -= 1
+                        continue
+                ok = not bad_guard and not bad_fb
+                ctx.ob('A-CODEC', '%s.%s: %s(%s) depends on settings only' % (lab, mname, nm, ','.join(sorted(data))), ok)
+                if not ok:
+                    what = ('guarded by `%s`' % unparse(bad_guard[0])[:60]) if bad_guard else 'in a try that falls back to the raw value'
+                    ctx.fail('A-CODEC', mq(ci, mname) if skip else '%s::%s' % (m.rel, mname), '%s of %s decided by the value itself' % (nm, ','.join(sorted(data))),
+                             '%s.%s applies %s to %s %s: whether a stored value is (de)coded depends on what the value looks like, so writer and reader are not '
+                             'inverses - bytes that a user stored and that happen to be a valid pickle are read back as the unpickled object, and a value the test '
+                             'misjudges is returned in its stored representation' % (lab, mname, nm, ','.join(sorted(data)), what), '%s:%d' % (m.rel, call.lineno))
+    ctx.ob('A-CODEC', 'codec calls on parameters examined', True, n=max(n, 1))
+    if n < 2:
+        raise AnalysisError('A-CODEC (configuration-driven): fewer than two codec calls on a parameter found (hdf_archive._loadval / _dumpval are anchors)')
+
+
+CODEC_SETTINGS = ('protocol', 'serialized', 'compression', 'fast', 'memmode', 'meta')
+
+
+def rule_A_SETTINGS_EXPLICIT(ctx, repo):
+    """A-CODEC (the format of a store is what the caller configured).  In the constructor of an archive class the settings that select the codec
+    (protocol, serialized, compression, ...) come from the corresponding arguments (and their documented interplay) - never from the *location*:
+    `if filename.endswith('.json'): protocol = 'json'` silently writes JSON into what the caller configured as a pickle archive (tuples come back as
+    lists, non-string keys as strings).  The location may be adjusted to the settings (the '.py' suffix of an unserialised archive), not the reverse."""
+    m = repo.mod('_archives')
+    n = 0
+    for lab, ci in sorted(m.classes.items()):
+        init = ci.own_methods.get('__init__') if hasattr(ci, 'own_methods') else ci.methods.get('__init__')
+        if 'archive' not in ci.name or init is None or len(init.node.args.args) < 2:
+            continue
+        fn = init.node
+        loc = fn.args.args[1].arg
+        locs = set([loc])
+        changed = True
+        while changed:
+            changed = False
+            for x in ast.walk(fn):
+                if isinstance(x, ast.Assign) and len(x.targets) == 1 and isinstance(x.targets[0], ast.Name) and x.targets[0].id not in locs \
+                        and x.targets[0].id not in CODEC_SETTINGS and any(isinstance(y, ast.Name) and y.id in locs for y in ast.walk(x.value)):
+                    locs.add(x.targets[0].id)
+                    changed = True
+        parent = {}
+        for x in ast.walk(fn):
+            for c in ast.iter_child_nodes(x):
+                parent[c] = x
+        for x in ast.walk(fn):
+            tgt = None
+            if isinstance(x, (ast.Assign, ast.AugAssign)):
+                for t in (x.targets if isinstance(x, ast.Assign) else [x.target]):
+                    if isinstance(t, ast.Name) and t.id in CODEC_SETTINGS:
+                        tgt = t.id
+                    elif isinstance(t, ast.Subscript) and isinstance(t.slice, ast.Constant) and t.slice.value in CODEC_SETTINGS:
+                        tgt = t.slice.value
+            if tgt is None:
+                continue
+            n += 1
+            guards = []
+            cur = x
+            while cur in parent and cur is not fn:
+                p = parent[cur]
+                if isinstance(p, ast.If):
+                    guards.append(p.test)
+                    # an elif / else arm is also decided by the tests of the arms before it
+                    q = p
+                    while q in parent and isinstance(parent[q], ast.If) and q in parent[q].orelse:
+                        q = parent[q]
+                        guards.append(q.test)
+                cur = p
+            # only the test that selects this assignment (its own arm) counts; earlier arms' tests are there because they were *false*
+            own = [g for g in guards[:1]] if guards else []
+            uses_loc = [g for g in own if any(isinstance(y, ast.Name) and y.id in locs for y in ast.walk(g))]
+            from_loc = any(isinstance(y, ast.Name) and y.id in locs for y in ast.walk(x.value))
+            ok = not uses_loc and not from_loc
+            ctx.ob('A-CODEC', '%s.__init__: %s is set from the arguments, not from %s' % (lab, tgt, loc), ok)
+            if not ok:
+                ctx.fail('A-CODEC', mq(ci, '__init__'), 'setting %s derived from the location' % tgt,
+                         '%s.__init__ sets %s %s: the format the archive is written in then follows the *name* the caller chose instead of the settings the caller '
+                         'passed (or the documented defaults) - an archive configured as pickle is written as something else, and values come back changed (tuples '
+                         'as lists, integer keys as strings)' % (lab, tgt, ('under `%s`' % unparse(uses_loc[0])[:60]) if uses_loc else 'from `%s`' % loc),
+                         wh(ci, x.lineno))
+    ctx.ob('A-CODEC', 'assignments of codec settings in constructors examined', True, n=max(n, 1))
+    if n < 3:
+        raise AnalysisError('A-CODEC (explicit settings): fewer than three assignments of codec settings found in the archive constructors')
+
+
+def rule_A_RED_DERIVED(ctx, repo):
+    """A-RED (nothing derived from the settings is remembered outside __state__).  The archive classes pickle as (class, a few constructor arguments,
+    {'__state__': ...}): unpickling runs __init__ with those few arguments - every other setting at its default - and only then puts the real __state__
+    back.  An attribute that __init__ computes from the settings (`self._file = 'output.json' if protocol is json ...`) is therefore computed from the
+    *defaults* in the clone and never refreshed: the clone reads other file names / another format than the original.  Allowed: attributes that depend only
+    on the constructor arguments __reduce__ passes."""
+    m = repo.mod('_archives')
+    n = 0
+    for lab, ci in sorted(m.classes.items()):
+        own = ci.own_methods if hasattr(ci, 'own_methods') else ci.methods
+        init, red = own.get('__init__'), ci.methods.get('__reduce__')
+        if 'archive' not in ci.name or init is None or red is None:
+            continue
+        rets = [r for r in ast.walk(red.node) if isinstance(r, ast.Return) and isinstance(r.value, ast.Tuple) and len(r.value.elts) >= 2 and isinstance(r.value.elts[1], ast.Tuple)]
+        if not rets:
+            continue
+        k = min(len(r.value.elts[1].elts) for r in rets)
+        fn = init.node
+        selfn = fn.args.args[0].arg
+        params = [a.arg for a in fn.args.args[1:]]
+        passed = set(params[:k])
+        allp = set(params) | set(a.arg for a in fn.args.kwonlyargs) | (set([fn.args.kwarg.arg]) if fn.args.kwarg else set()) | (set([fn.args.vararg.arg]) if fn.args.vararg else set())
+        # which parameters each key of the __state__ literal comes from
+        state_src = {}
+        for x in ast.walk(fn):
+            if isinstance(x, ast.Assign) and any(isinstance(t, ast.Attribute) and t.attr == '__state__' for t in x.targets) and isinstance(x.value, ast.Dict):
+                for kk, vv in zip(x.value.keys, x.value.values):
+                    if isinstance(kk, ast.Constant):
+                        state_src[kk.value] = set(y.id for y in ast.walk(vv) if isinstance(y, ast.Name) and y.id in allp)
+        parent = {}
+        for x in ast.walk(fn):
+            for c in ast.iter_child_nodes(x):
+                parent[c] = x
+
+        def deps(expr):
+            out = set()
+            for y in ast.walk(expr):
+                if isinstance(y, ast.Name) and y.id in allp:
+                    out.add(y.id)
+                if isinstance(y, ast.Subscript) and isinstance(y.value, ast.Attribute) and y.value.attr == '__state__' and isinstance(y.slice, ast.Constant):
+                    out |= state_src.get(y.slice.value, set(['<state %s>' % y.slice.value]))
+            return out
+        for x in ast.walk(fn):
+            if not isinstance(x, ast.Assign):
+                continue
+            names = []
+            for t in x.targets:
+                for e in (t.elts if isinstance(t, ast.Tuple) else [t]):
+                    if isinstance(e, ast.Attribute) and isinstance(e.value, ast.Name) and e.value.id == selfn and e.attr != '__state__':
+                        names.append(e.attr)
+            if not names:
+                continue
+            n += 1
+            d = deps(x.value)
+            cur = x
+            while cur in parent and cur is not fn:
+                p = parent[cur]
+                if isinstance(p, ast.If):
+                    d |= deps(p.test)
+                    q = p
+                    while q in parent and isinstance(parent[q], ast.If) and q in parent[q].orelse:
+                        q = parent[q]
+                        d |= deps(q.test)
+                cur = p
+            stale = sorted(d - passed)
+            ctx.ob('A-RED', '%s.__init__: self.%s depends only on what __reduce__ hands back to the constructor' % (lab, '/'.join(names)), not stale)
+            if stale:
+                ctx.fail('A-RED', mq(ci, '__init__'), 'self.%s derived from %s, which __reduce__ does not pass' % ('/'.join(names), ', '.join(stale)),
+                         '%s.__init__ computes self.%s from %s, but %s.__reduce__ rebuilds the archive from (%s) only and restores __state__ afterwards: in an unpickled '
+                         'archive (a pickled cached function, a copy) the attribute keeps the value computed from the defaults - the clone then looks for other file '
+                         'names / uses another format than the original and misses what the original finds' % (lab, '/'.join(names), ', '.join(stale), lab, ', '.join(params[:k])),
+                         wh(ci, x.lineno))
+    ctx.ob('A-RED', 'instance attributes besides __state__ set by the constructors of pickled archive classes', True, n=n)
